@@ -25,9 +25,9 @@ ASSUMPTIONS = ["values whose reference error bound exceeds 1e-11 relative are no
 BUDGET = {"quick": (1600, 4), "thorough": (26000, 16)}
 
 
-def _cfg(tier):
+def _cfg(tier, arrays=False):
     return S.Cfg(max_items=12 if tier != "quick" else 7, depth=3 if tier != "quick" else 2, params=True, options=False,
-                 ascii_only=False, whole_array_odds=1, complex_coefficients=True)
+                 ascii_only=False, whole_array_odds=0 if arrays else 1, complex_coefficients=True, array_weight=4 if arrays else 1)
 
 
 def param_slots(script):
@@ -85,7 +85,7 @@ def _real_value():
 
 @st.composite
 def case(draw, tier):
-    script = draw(S.script(_cfg(tier)))
+    script = draw(S.script(_cfg(tier, arrays=draw(st.integers(0, 3)) == 0)))      # a quarter of the templates is array-heavy
     info = param_slots(script)
     vals = {}
     for name in sorted(info):
@@ -152,6 +152,38 @@ def _call_kwargs(vals):
     return kw
 
 
+def _type_twin(kw):
+    out = {}
+    for k, v in kw.items():
+        if isinstance(v, np.ndarray):
+            out[k] = v.astype(float) if v.dtype.kind in "iu" else v.copy()
+        elif isinstance(v, list):
+            out[k] = [[float(x) if isinstance(x, int) and not isinstance(x, bool) else x for x in r] for r in v]
+        elif isinstance(v, bool):
+            out[k] = v
+        elif isinstance(v, (int, np.integer)):
+            out[k] = float(v)
+        elif isinstance(v, (float, np.floating)) and float(v).is_integer() and abs(v) < 2 ** 53:
+            out[k] = int(v)
+        else:
+            out[k] = v
+    return out
+
+
+def _near_twin(kw):
+    """Array elements moved by 3e-9 (beyond the comparison tolerance for |x| < 3, below what NumPy prints); scalars unchanged."""
+    f = 3e-9
+    out = {}
+    for k, v in kw.items():
+        if isinstance(v, np.ndarray):
+            out[k] = v + f if v.dtype.kind in "fc" else v.copy()
+        elif isinstance(v, list):
+            out[k] = [[x + f if isinstance(x, (float, complex)) else x for x in r] for r in v]
+        else:
+            out[k] = v
+    return out
+
+
 def check(c):
     script, vals = c["script"], c["values"]
     if any(v is None for v in vals.values()):
@@ -201,6 +233,15 @@ def check(c):
         # a parameter that cancels identically, or whose only holder was declared again, occurs nowhere in the program
         return Outcome(discard="parameter-without-occurrence-in-program")
     kw = _call_kwargs(vals)
+    # the template is instantiated with look-alike values first: equal numbers of another type (1 / 1.0), and values that
+    # differ only from the 9th significant digit on (arrays) -- the instance for the generated values must not be affected
+    for twin in (_type_twin(kw), _near_twin(kw)):
+        try:
+            T(**twin)
+        except RecursionError:
+            raise
+        except Exception:
+            pass
     try:
         inst = T(**kw)
     except Exception as e2:
